@@ -13,7 +13,8 @@ Objects that Python shares by reference live in an explicit heap (`Heap`) of `Na
 * `impls`   — `_HttpConnImpl` objects (address, "send ids" flag, id counter), shared by all connections
               derived from one another (`conn_impl`);
 * `conns`   — `_HttpConnBase` objects;
-* `callers` — `MCallerHttp` objects (`http_conn`, the class's `_HTTP_PREFIX_MAP`, `_mc_conns_by_prefix`).
+* `callers` — `MCallerHttp` objects (`http_conn`, the class's `_HTTP_PREFIX_MAP`, `_mc_conns_by_prefix`);
+* `classes` — subclasses of `MCallerHttp` (bases, MRO, own wrappers, the `_MCALLERS_METAS` table).
 
 What follows the code line by line:
 * `mkConn`     — `_HttpConnBase.__init__`: `self.adapters = self.own_adapters + self.parent_conn.adapters`
@@ -187,6 +188,9 @@ inductive HVal where
   | str (s : Str)
   | bytes (s : Str)
   | genId            -- the generated request id (its text is C16's business)
+  | int (n : Int)    -- values a caller may put into `params=`: `str(v)` is what `urlencode` sends
+  | bool (b : Bool)
+  | pyNone
   deriving DecidableEq, Repr
 
 abbrev Dict := List (Str × HVal)
@@ -385,8 +389,21 @@ structure Conn where
 
 structure Caller where
   conn : Nat
-  pmap : UDict                -- `_HTTP_PREFIX_MAP` of the class: component → prefix
+  pmap : UDict                -- `_HTTP_PREFIX_MAP` as `type(self)` sees it: component → prefix
   cache : List (Str × Nat)    -- `_mc_conns_by_prefix`
+  cls : Nat                   -- `type(self)`
+  deriving DecidableEq, Repr
+
+/-- components of a wrapper: `None`, or a list of names -/
+abbrev Comps := Option (List Str)
+
+/-- a subclass of `MCallerHttp` -/
+structure ClassDef where
+  bases : List Nat            -- direct bases, in the order of the class statement
+  mro : List Nat              -- `cls.__mro__` (Python's C3 linearisation, supplied; the class itself first)
+  pmap : Option UDict         -- `_HTTP_PREFIX_MAP` if the class body defines it
+  own : List (Str × Comps)    -- wrappers defined in the class body: name ↦ components of `method_http`
+  metas : List (Str × Comps)  -- `_MCALLERS_METAS` as computed by the metaclass
   deriving DecidableEq, Repr
 
 structure Heap where
@@ -397,9 +414,10 @@ structure Heap where
   impls : List Impl
   conns : List Conn
   callers : List Caller
+  classes : List ClassDef
   deriving DecidableEq, Repr
 
-def Heap.empty : Heap := ⟨[], [], [], [], [], [], []⟩
+def Heap.empty : Heap := ⟨[], [], [], [], [], [], [], []⟩
 
 /-- `conn_data` of a connection constructor -/
 inductive Target where
@@ -428,13 +446,15 @@ inductive Op where
   | newList (as : List Adapter)
   | listAppend (l : Nat) (a : Adapter)
   | newDict (d : UDict)
+  | newParams (d : Dict)      -- a params object: dict with non-str values, or list / tuple of pairs
+  | newClass (bases mro : List Nat) (pmap : Option UDict) (own : List (Str × Comps))
   | mk (t : Target) (own : Own) (plain : Bool)
   | add (c : Nat) (a : Adapter)
-  | newCaller (t : Target) (pmap : UDict)
+  | newCaller (t : Target) (cls : Nat)
   | clone (k : Nat) (own : Own)
   | connOf (k : Nat)
   | cached (k : Nat) (pfx : Str)
-  | call (k : Nat) (comps : Option (List Str)) (args : Args)
+  | call (k : Nat) (method : Str) (args : Args)   -- `k.method(...)`, a wrapper that sends one request
   | request (c : Nat) (args : Args)
   deriving DecidableEq, Repr
 
@@ -490,12 +510,18 @@ def optDict (H : Heap) : Option Nat → Option (Option Dict)
     | some d => some (some d)
     | none => none
 
+/-- `str(v)` of a value the caller put into a params object -/
 def HVal.text : HVal → Option Str
   | .str s => some s
-  | _ => none
+  | .int n => some (toString n).toList
+  | .bool true => some "True".toList
+  | .bool false => some "False".toList
+  | .pyNone => some "None".toList
+  | _ => Option.none
 
-/-- a dict of the caller read as `str → str` (the `params=` argument); `none` for a dict object that
-holds something else (no such object is reachable for a caller) -/
+/-- the `params=` object of the caller as the list of `(key, str(value))` pairs `urlencode` walks
+through — a dict, or a list / tuple of pairs in which a key may occur more than once: every pair is
+kept, in order; `none` for an object that holds something else (not reachable for a caller) -/
 def toUDict : Dict → Option UDict
   | [] => some []
   | (k, v) :: r =>
@@ -590,6 +616,50 @@ def getConn (H : Heap) (k : Nat) (comps : Option (List Str)) : Heap × Except Er
                 ({ H' with callers := H'.callers.set k { cl with cache := cl.cache ++ [(pfx, n)] } }, .ok n)
       | _ => (H, .error .assertion)
 
+/-- `d[k] = v` on an association list (dict semantics) -/
+def aset {β} : List (Str × β) → Str → β → List (Str × β)
+  | [], k, v => [(k, v)]
+  | (k', v') :: r, k, v => if k' = k then (k', v) :: r else (k', v') :: aset r k v
+
+def asetAll {β} (acc : List (Str × β)) (l : List (Str × β)) : List (Str × β) :=
+  l.foldl (fun a kv => aset a kv.1 kv.2) acc
+
+/-- `_Meta_MethodsCaller.__new__`: `{name: meta for parent in reversed(supers) for name, meta in
+parent._MCALLERS_METAS.items()}`, then the wrappers of the class body -/
+def mergeMetas (baseMetas : List (List (Str × Comps))) (own : List (Str × Comps)) : List (Str × Comps) :=
+  asetAll (baseMetas.reverse.foldl asetAll []) own
+
+/-- class attribute lookup along the MRO: the first class that defines `_HTTP_PREFIX_MAP`
+(`MCallerHttp` itself has `{}`) -/
+def classPmap (cs : List ClassDef) : List Nat → UDict
+  | [] => []
+  | c :: r =>
+    match cs[c]? with
+    | some cd => match cd.pmap with
+      | some p => p
+      | none => classPmap cs r
+    | none => classPmap cs r
+
+/-- method lookup along the MRO: the first class whose body defines the wrapper -/
+def bodyClass (cs : List ClassDef) (m : Str) : List Nat → Option Nat
+  | [] => none
+  | c :: r =>
+    match cs[c]? with
+    | some cd => if cd.own.any (·.1 = m) then some c else bodyClass cs m r
+    | none => bodyClass cs m r
+
+/-- the harness's wrapper bodies send to `path + "~" + <number of the class whose body runs>` -/
+def bodySuffix (c : Nat) : Str := '~' :: (toString c).toList
+
+/-- what happens inside a wrapper declared with `comps`: `self.get_conn().<verb>(path, …)` -/
+def doCall (H : Heap) (k : Nat) (comps : Comps) (args : Args) : Heap × Except Err Reply :=
+  match getConn H k comps with
+  | (H', .ok c) =>
+    match request H' c args with
+    | (H'', .ok s) => (H'', .ok (.sent s))
+    | (H'', .error e) => (H'', .error e)
+  | (H', .error e) => (H', .error e)
+
 /-- one operation of a history; the heap is returned also when the operation raises -/
 def step (H : Heap) : Op → Heap × Except Err Reply
   | .newList as =>
@@ -615,24 +685,38 @@ def step (H : Heap) : Op → Heap × Except Err Reply
       match H.lists[cn.alist]? with
       | some as => ({ H with lists := H.lists.set cn.alist (as ++ [a]) }, .ok .unit)
       | none => (H, .error .keyError)
-  | .newCaller t pmap =>
+  | .newParams d =>
+    if d.all (fun kv => kv.2.text.isSome) then
+      ({ H with dicts := H.dicts ++ [d], userDicts := H.userDicts ++ [H.dicts.length] }, .ok (.ref H.dicts.length))
+    else (H, .error .typeError)
+  | .newClass bases mro pmap own =>
+    match bases.mapM (fun b => H.classes[b]?) with
+    | none => (H, .error .keyError)
+    | some bs =>
+      ({ H with classes := H.classes ++ [{ bases, mro, pmap, own, metas := mergeMetas (bs.map (·.metas)) own }] },
+       .ok (.ref H.classes.length))
+  | .newCaller t cls =>
     -- `MCallerHttp.__init__`: an `HttpConn` is taken as it is, anything else goes to `HttpConn(address)`
+    match H.classes[cls]? with
+    | none => (H, .error .keyError)
+    | some cd =>
+    let pmap := classPmap H.classes cd.mro
     match t with
     | .conn p =>
       match H.conns[p]? with
       | none => (H, .error .keyError)
       | some pc =>
         if pc.plain then
-          ({ H with callers := H.callers ++ [{ conn := p, pmap, cache := [] }] }, .ok (.ref H.callers.length))
+          ({ H with callers := H.callers ++ [{ conn := p, pmap, cache := [], cls }] }, .ok (.ref H.callers.length))
         else
           match mkConn H t .none true with
           | some (H', n) =>
-            ({ H' with callers := H'.callers ++ [{ conn := n, pmap, cache := [] }] }, .ok (.ref H'.callers.length))
+            ({ H' with callers := H'.callers ++ [{ conn := n, pmap, cache := [], cls }] }, .ok (.ref H'.callers.length))
           | none => (H, .error .keyError)
     | .addr .. =>
       match mkConn H t .none true with
       | some (H', n) =>
-        ({ H' with callers := H'.callers ++ [{ conn := n, pmap, cache := [] }] }, .ok (.ref H'.callers.length))
+        ({ H' with callers := H'.callers ++ [{ conn := n, pmap, cache := [], cls }] }, .ok (.ref H'.callers.length))
       | none => (H, .error .keyError)
   | .clone k own =>
     match H.callers[k]? with
@@ -640,7 +724,7 @@ def step (H : Heap) : Op → Heap × Except Err Reply
     | some cl =>
       match mkConn H (.conn cl.conn) own true with
       | some (H', n) =>
-        ({ H' with callers := H'.callers ++ [{ conn := n, pmap := cl.pmap, cache := [] }] },
+        ({ H' with callers := H'.callers ++ [{ conn := n, pmap := cl.pmap, cache := [], cls := cl.cls }] },
          .ok (.ref H'.callers.length))
       | none => (H, .error .keyError)
   | .connOf k =>
@@ -654,13 +738,18 @@ def step (H : Heap) : Op → Heap × Except Err Reply
       | some n => (H, .ok (.ref n))
       | none => (H, .error .keyError)      -- Python's KeyError of `_mc_conns_by_prefix[prefix]`
     | none => (H, .error .keyError)
-  | .call k comps args =>
-    match getConn H k comps with
-    | (H', .ok c) =>
-      match request H' c args with
-      | (H'', .ok s) => (H'', .ok (.sent s))
-      | (H'', .error e) => (H'', .error e)
-    | (H', .error e) => (H', .error e)
+  | .call k m args =>
+    -- the body that runs is the one Python's MRO selects; `get_conn()` inside it asks
+    -- `self._MCALLERS_METAS[<name of the running function>]` for the components
+    match H.callers[k]? with
+    | none => (H, .error .keyError)
+    | some cl =>
+      match H.classes[cl.cls]? with
+      | none => (H, .error .keyError)
+      | some cd =>
+        match bodyClass H.classes m cd.mro, lookup cd.metas m with
+        | some b, some comps => doCall H k comps { args with path := args.path ++ bodySuffix b }
+        | _, _ => (H, .error .attributeError)
   | .request c args =>
     match request H c args with
     | (H', .ok s) => (H', .ok (.sent s))
